@@ -18,6 +18,7 @@ func init() {
 		ID:  "C15",
 		Run: runC15,
 		Meta: an.Meta{
+			Technique: "flow-sensitive sanitiser (taint) analysis on CFGs with condition facts, inductive over parameters (greatest fixpoint) and over Template.Name / NodeBase.TemplatePath",
 			Explanation: "A sanitiser must-pass-through (taint) rule, flow-sensitive inside each function (CFG exploration with facts) and inductive across functions (greatest fixpoint over " +
 				"parameter assumptions): (C15.clean) every argument of Loader.Exists/Open and Cache.Get/Put on a Set, and the Name of every Template built by parse, is a *clean absolute* value — " +
 				"path.Clean(x) under the fact path.IsAbs(x), path.Join rooted at \"/\" / a clean value / path.Dir of one, optionally + <extension from Set.extensions> — and every argument " +
